@@ -1122,6 +1122,9 @@ func calleeName(cc *ssa.CallCommon) string {
 	if sc := cc.StaticCallee(); sc != nil {
 		return sc.Name()
 	}
+	if b, ok := cc.Value.(*ssa.Builtin); ok {
+		return b.Name()
+	}
 	return ""
 }
 
